@@ -153,6 +153,16 @@ CHECKS = {
             'subscriptionmgr_base.time is a virtual clock; housekeeping threads run one iteration per tick; delivery '
             'faults are HTTP status, refused connection and timeout injected at the loop-back transport.',
             'DESIGN.md section 2 C08'),
+    'C13': ('hypothesis generated HTTP framing and structure-aware mutations of recorded valid SOAP requests, driven '
+            'in-process through the real DispatchingRequestHandler (fake socket) into a live provider and a live consumer; '
+            'totality / response-shape / canary / unchanged-state oracles',
+            'Requests are judged by: nothing escapes handle(), no spinning at end of stream, an HTTP status line for every '
+            'well-formed request line, a well-formed SOAP fault for faults, a canary file / internal entity token that must '
+            'appear neither in the response nor in the parsed tree handed on by the message reader, and an unchanged MDIB '
+            'and subscription table after every rejected request.',
+            'The peer is modelled as closing after sending; kernel sockets, timeouts and TLS are not in the loop; a '
+            'coverage-guided byte fuzzer is not part of the registered commands.',
+            'DESIGN.md section 2 C13'),
 }
 
 NOT_YET = {}
